@@ -85,6 +85,27 @@ def _unique_tasks(tasks):
     return res
 
 
+class _AllOrNothing:
+    """
+    Context manager for an operation that calls several relation setters in a row (parent, children,
+    predecessors, successors of several tasks). Every setter rejects a bad argument before it changes
+    anything, but a setter that raises after earlier ones have returned would leave their effect behind.
+    If the block raises, the parent, children, predecessors, successors and owner WBS of the given tasks
+    and of the tasks directly related to them are put back, so that a rejected operation changes nothing.
+    """
+
+    def __init__(self, tasks: Iterable['Task']):
+        self.__saved = Task._save_relations([t for t in tasks if isinstance(t, Task)])
+
+    def __enter__(self):
+        return self
+
+    def __exit__(self, exc_type, exc_val, exc_tb):
+        if exc_type is not None:
+            Task._restore_relations(self.__saved)
+        return False
+
+
 class _Repr:
     """Utility class for print task sheets"""
 
@@ -336,8 +357,16 @@ class _ImmutableTaskList:
             super().__setattr__(key, value)
         else:
             tasks = [t for t in self._list]
-            for t in tasks:
-                t.__setattr__(key, value)
+            if key in ('parent', 'children', 'predecessors', 'successors'):
+                # One setter call per task: all of them take effect, or none does
+                if key != 'parent' and value is not None and type(value) is not Task:
+                    value = _to_list(value)
+                with _AllOrNothing(tasks + ([value] if key == 'parent' else _to_list(value))):
+                    for t in tasks:
+                        t.__setattr__(key, value)
+            else:
+                for t in tasks:
+                    t.__setattr__(key, value)
 
     def __getattr__(self, attr):
         """
@@ -373,13 +402,20 @@ class _ImmutableTaskList:
     def __lshift__(self, other: Union['Task', Iterable['Task']]):
         # The loop runs over a copy: when this list is a live view (task.successors, task.predecessors)
         # the assignments below rewrite it while it is being walked and tasks would be skipped
-        for t in [t for t in self._list]:
-            t.predecessors += other
+        tasks = [t for t in self._list]
+        linked = _to_list(other)
+        # One setter call per task: all of them take effect, or none does
+        with _AllOrNothing(tasks + linked):
+            for t in tasks:
+                t.predecessors += linked
         return other
 
     def __rshift__(self, other: Union['Task', Iterable['Task']]):
-        for t in [t for t in self._list]:
-            t.successors += other
+        tasks = [t for t in self._list]
+        linked = _to_list(other)
+        with _AllOrNothing(tasks + linked):
+            for t in tasks:
+                t.successors += linked
         return other
 
     def __getitem__(self, query):
@@ -669,17 +705,66 @@ class Task:
 
         self.min_start = min_start
 
-        if parent is not None:
-            self.parent = parent
-        if children is not None:
-            self.children = children
-        if successors:
-            self.successors = successors
-        if predecessors:
-            self.predecessors = predecessors
+        if children is not None and type(children) is not Task:
+            children = _to_list(children)
+        if successors and type(successors) is not Task:
+            successors = _to_list(successors)
+        if predecessors and type(predecessors) is not Task:
+            predecessors = _to_list(predecessors)
+        # A relation that is rejected leaves the relations accepted before it undone: a task that
+        # could not be built is attached to nothing
+        with _AllOrNothing([self, parent] + _to_list(children) + _to_list(successors or None)
+                           + _to_list(predecessors or None)):
+            if parent is not None:
+                self.parent = parent
+            if children is not None:
+                self.children = children
+            if successors:
+                self.successors = successors
+            if predecessors:
+                self.predecessors = predecessors
 
         for k, v in kwargs.items():
             self.__setattr__(k, v)
+
+    # noinspection PyProtectedMember
+    @staticmethod
+    def _save_relations(tasks: List['Task']) -> list:
+        """
+        Relations of the given tasks and of every task directly related to them (parent, children,
+        predecessors, successors, root of the owner WBS): everything that setter calls on the given
+        tasks can change
+        """
+        saved = {}
+
+        def save(t):
+            if t is not None and id(t) not in saved:
+                saved[id(t)] = (t, t.__parent, t.__children[:], t.__predecessors[:], t.__successors[:], t.__wbs)
+
+        for t in tasks:
+            save(t)
+            if t.__wbs is not None:
+                save(t.__wbs._root())
+            for r in [t.__parent] + t.__children + t.__predecessors + t.__successors:
+                save(r)
+        return list(saved.values())
+
+    # noinspection PyProtectedMember
+    @staticmethod
+    def _restore_relations(saved: list):
+        """Puts back what _save_relations has saved (lists are restored in place)"""
+        for t, parent, children, predecessors, successors, wbs in saved:
+            t.__parent = parent
+            t.__children[:] = children
+            t.__predecessors[:] = predecessors
+            t.__successors[:] = successors
+        for t, parent, children, predecessors, successors, wbs in saved:
+            if t.__wbs is not wbs:
+                # the owner changes together with the whole subtree
+                if wbs is None:
+                    t._detach()
+                else:
+                    t._attach(wbs)
 
     def _attach(self, wbs: 'WBS'):
         if wbs is None:
